@@ -482,7 +482,8 @@ func (idx *KVIndex) fieldTermNumberRange(field string, min, max float64, minByte
 	if min < 0 {
 		minPrefix := EntryValuePrefix(field, TermNumber, minBytes)
 		maxPrefix := EntryValuePrefix(field, TermNumber, maxBytes)
-		if max > 0 {
+		if max >= 0 {
+			//negative terms sort after the positive ones: the downward scan ends at +Inf
 			maxPrefix = EntryValuePrefix(field, TermNumber, floatPosInfBytes)
 		}
 		idx.KV.View(func(it kvi.KVIterator) error {
